@@ -183,7 +183,7 @@ CHECKS["C13"] = {
 }
 
 # ---------------------------------------------------------------- C01
-WORLD = ["internal_ctlog/zz_verif_world.go", "internal_ctlog/zz_verif_c09.go", "internal_ctlog/zz_verif_c17.go", "internal_ctlog/zz_verif_c02.go", "internal_ctlog/zz_verif_c03.go", "internal_ctlog/zz_verif_c01.go"]
+WORLD = ["internal_ctlog/zz_verif_world.go", "internal_ctlog/zz_verif_c05.go", "internal_ctlog/zz_verif_c09.go", "internal_ctlog/zz_verif_c17.go", "internal_ctlog/zz_verif_c02.go", "internal_ctlog/zz_verif_c03.go", "internal_ctlog/zz_verif_c01.go"]
 c01_cases = [
     # VerifC01(n0, rounds, pool, faults, crashes, clock) ; clock 0 = arbitrary readings, 1 = strictly increasing
     case("n0=0 1 round pool 1 F=1 C=0 arbitrary clock", "VerifC01", [0, 1, 1, 1, 0, 0], ["final", "audited", "fatal"], Q),
@@ -409,6 +409,26 @@ CHECKS["C09"] = {
                                    "IsPrecertificate / BuildPrecertTBS are functions of the abstract certificate; JSON request/response framing is modelled; PEM parsing is a stub"],
 }
 
+# ---------------------------------------------------------------- C05
+c05_cases = []
+for kind, name in [(0, "SQLite"), (1, "DynamoDB"), (2, "ETag S3")]:
+    c05_cases.append(case("%s register, 4 operations" % name, "VerifC05Register", [kind, 4], ["fetch-missing", "fetch", "create", "create-exists", "replace", "replace-stale"], Q,
+                          confirm_native={"func": "VerifC05NativeETagMissing", "args": [], "timeout": 60} if kind == 2 else None))
+    c05_cases.append(case("%s register, 5 operations" % name, "VerifC05Register", [kind, 5], ["fetch", "create", "replace", "replace-stale"], T,
+                          confirm_native={"func": "VerifC05NativeETagMissing", "args": [], "timeout": 60} if kind == 2 else None))
+for c in c05_cases:
+    if c.get("confirm_native") is None:
+        c.pop("confirm_native", None)
+CHECKS["C05"] = {
+    "level": "model_checking",
+    "jobs": [dict(CTLOG, harness=sorted(set(WORLD)), native=False, cases=c05_cases)],
+    "bounds": {"quick": "creation followed by 3 operations (fetch / create / replace) by 2 clients on 2 log IDs, in symbolic order, with values of length 0-2 (symbolic bytes, nil vs empty), per backend",
+               "thorough": "creation followed by 4 operations"},
+    "assumptions": ["PARTIAL CLAIM: 'each method is exactly one conditional request that implements compare-and-swap under the service's documented semantics' — the services are models that interpret the requests: the SQL subset used by sqlite.go (BLOB equality, NULL never equal, NOT NULL, changes()), DynamoDB GetItem/PutItem with 'checkpoint = :old' / 'attribute_not_exists(logID)' and ConsistentRead (an inconsistent read may be stale), S3 GetObject/PutObject with If-Match on ETags (empty value = must not exist; NoSuchKey for a missing object)",
+                    "atomicity, durability and cross-process behaviour of SQLite (C engine), DynamoDB and S3 themselves, synchronous=FULL, and how cgo binds BLOB/TEXT with NUL bytes are not Go source and are outside the claim",
+                    "each request is atomic at the service, so interleavings of clients and processes are sequences of requests"],
+}
+
 # ---------------------------------------------------------------- manifest texts
 NOT_APPLICABLE = {}
 _WORLD_NOTE = ("environment = the ctlog world of DESIGN.md §3.1: in-memory object storage and a correct CAS lock store with per-operation crash/fault injection, "
@@ -429,6 +449,10 @@ MANIFEST_TEXT = {
     "C04": {
         "text": "same executions as C03 with the storage monitors as the subject: at every publication of a checkpoint an independent oracle recomputes every hash tile (all levels), data tile, names tile and issuer object the tree needs (RFC 6962 hashing, independent TileLeaf encoder, closed-form tile coordinates) and compares them byte for byte with storage; immutable objects are never rewritten with different bytes; only staging bundles are discarded",
         "note": _WORLD_NOTE + "; entry shapes: certificate, precertificate, 1-2 issuers, unparseable certificates",
+    },
+    "C05": {
+        "text": "bounded symbolic execution of SQLiteBackend, DynamoDBBackend and ETagBackend (Fetch, Replace, Create and their LockedCheckpoint types) in a differential harness against a reference compare-and-swap register: histories of creation followed by 3-4 fetch/create/replace operations by two clients on two log IDs in symbolic order with symbolic values (lengths 0-2, nil vs empty); every result, returned value, error identity (ErrLogNotFound) and 'exactly one request per method' is compared with the reference",
+        "note": "PARTIAL CLAIM: the services are request-interpreting models (SQL subset with NULL semantics and changes(), DynamoDB condition expressions and ConsistentRead with possibly stale inconsistent reads, S3 If-Match on ETags); atomicity/durability of SQLite's C engine, DynamoDB and S3, cross-process behaviour and NUL-byte handling in cgo are not Go source and outside the claim; one genuine defect (ETag backend and ErrLogNotFound) was found, confirmed against a local HTTP server, and repaired",
     },
     "C06": {
         "text": "bounded symbolic execution of two Log instances with the same key over one lock store and object storage: instance B runs a whole sequencing round at any storage/lock operation of instance A's round; exactly one commits, the other returns the fatal error and acknowledges nothing, the lock history stays one monotone chain and the prefix audit holds; plus CreateLog over an existing log and every refused start-up state of LoadLog (stale lock store, same size with a symbolic different root, foreign key, foreign origin, missing entries) with no write performed",
